@@ -130,6 +130,7 @@ impl Monitor for C02 {
 
 pub fn profile() -> Profile {
     let mut p = Profile::general();
+    p.past_legacy_half = true;
     p.p_mut = 60;
     p.max_txs = 7;
     p.kind_w[7] = 4;
